@@ -495,13 +495,18 @@ fn c04(args: &Args) -> ! {
 // ------------------------------------------------------------------ C05 client half
 
 fn c05(args: &Args) -> ! {
-    let mut rep = Report::new("C05", "client half: every scripted peer reply stream (k in 0..=4 (thorough 8) continues replies, then a final result or a final error (standard or custom), followed by a second call) against MethodCall::more(): the iteration yields exactly the k items in order, then the final item (Ok or the matching Err), then None (asked three times), and the next call on the connection succeeds with its own reply; also the same streams read by explicit recv() calls; non-trivial = distinct (k, final kind, reading style)");
+    let mut rep = Report::new("C05", "client half: every scripted peer reply stream (k in 0..=4 (thorough 8) continues replies, then a final result or a final error (standard or custom), followed by a second call) against MethodCall::more(): the iteration yields exactly the k items in order, then the final item (Ok or the matching Err), then None (asked three times), and the next call on the connection succeeds with its own reply; also the same streams read by explicit recv() calls, with an error reply that still carries continues:true in the middle of the stream, and with a second call attempted after every item (must fail busy without writing); non-trivial = distinct (k, final kind, reading style)");
     let replay = args.replay_case();
     let kmax = if args.thorough() { 8 } else { 4 };
     let finals = ["ok", "err-custom", "err-std", "ok-noparams"];
     for k in 0..=kmax {
         for f in finals {
-            for style in ["iter", "recv"] {
+            for style in ["iter", "recv", "iter-errmid", "iter-busyprobe"] {
+                let errmid = style == "iter-errmid" && k >= 1;
+                let busyprobe = style == "iter-busyprobe";
+                if style == "iter-errmid" && k == 0 {
+                    continue;
+                }
                 let case = json!({"k": k, "final": f, "style": style});
                 if let Some(r) = &replay {
                     if *r != case {
@@ -517,7 +522,12 @@ fn c05(args: &Args) -> ! {
                     if req["more"] == json!(true) {
                         let mut b = vec![];
                         for i in 0..k {
-                            b.extend(frame(&json!({"continues": true, "parameters": {"tok": tok, "i": i}})));
+                            if errmid && i == 0 {
+                                // an error reply that still announces more replies
+                                b.extend(frame(&json!({"continues": true, "error": "a.b.Warn", "parameters": {"i": 0}})));
+                            } else {
+                                b.extend(frame(&json!({"continues": true, "parameters": {"tok": tok, "i": i}})));
+                            }
                         }
                         b.extend(match f {
                             "ok" => frame(&json!({"parameters": {"tok": tok, "i": k}})),
@@ -542,11 +552,20 @@ fn c05(args: &Args) -> ! {
                             return;
                         }
                         Ok(it) => {
-                            if style == "iter" {
-                                for _ in 0..(k + 1) {
+                            if style != "recv" {
+                                for n in 0..(k + 1) {
                                     match it.next() {
                                         Some(r) => items.push(r.map(|v| v.to_string()).map_err(|e| kind_name(&e))),
                                         None => break,
+                                    }
+                                    if busyprobe && n < k {
+                                        // the iteration is still outstanding: any other call must fail busy
+                                        let w0 = _peer.lock().unwrap().wire.len();
+                                        let r = MC::new(conn.clone(), "a.b.C", json!({"tok": "intruder"})).call().map(|v| v.to_string()).map_err(|e| kind_name(&e));
+                                        if r != Err("ConnectionBusy".into()) || _peer.lock().unwrap().wire.len() != w0 {
+                                            bad = Some(("C05/client/not-busy-during-iteration".into(), format!("after item {} of {} a second call returned {:?} (bytes written: {})", n, k + 1, r, _peer.lock().unwrap().wire.len() - w0)));
+                                            return;
+                                        }
                                     }
                                 }
                                 for _ in 0..3 {
@@ -563,6 +582,9 @@ fn c05(args: &Args) -> ! {
                         }
                     }
                     let mut want: Vec<Result<String, String>> = (0..k).map(|i| Ok(json!({"tok": "m", "i": i}).to_string())).collect();
+                    if errmid {
+                        want[0] = Err(format!("{:?}", ErrorKind::VarlinkErrorReply(varlink::Reply { continues: Some(true), error: Some("a.b.Warn".into()), parameters: Some(json!({"i": 0})) })));
+                    }
                     want.push(match f {
                         "ok" => Ok(json!({"tok": "m", "i": k}).to_string()),
                         "ok-noparams" => Ok(json!({}).to_string()),
